@@ -253,7 +253,7 @@ def _worker(args):
 
 def check(tier):
     ck = core.Check("C10", tier)
-    shards, n = (16, 4000) if tier == "quick" else (256, 8000)
+    shards, n = (16, 4000) if tier == "quick" else (512, 8000)
     variants = ["asan" if i % 4 != 3 else "asan-small" for i in range(shards)]
     res = core.pmap(_worker, [(ck.seed, i, n, variants[i]) for i in range(shards)])
     counters = sem.merge(ck, res)
